@@ -1111,7 +1111,7 @@ impl World for RouterWorld {
                 });
                 let ok = r.result_status == 0;
                 if !ok && std::env::var("VERIF_ERRLOG").is_ok() {
-                    eprintln!("MULTIERR {}", r.result_message);
+                    eprintln!("MULTIERR {} :: {}", r.result_message, text);
                 }
                 if ok {
                     out_pays = got.iter().map(|(t, x)| (tok_id(t), x.clone())).collect();
@@ -1505,26 +1505,42 @@ impl RouterWorld {
             let ab = cur_tok == p.t1;
             let (rin, rout) = if ab { (r1.clone(), r2.clone()) } else { (r2.clone(), r1.clone()) };
             let tout = if ab { p.t2 } else { p.t1 };
-            let fixed_in = rng.chance(6, 10);
+            let mut fixed_in = rng.chance(6, 10);
+            let careful = rng.chance(85, 100); // mostly plan hops that can succeed
             if hi == 0 {
-                amount = match rng.below(8) {
+                amount = match rng.below(10) {
                     0 => one.clone(),
                     1 => rng.big_range(&one, &BigUint::from(1000u32)),
-                    2 => &rin / BigUint::from(1000u32) + &one,
-                    3 => rin.clone(),
-                    4 => &rin * BigUint::from(rng.range(2, 50)),
-                    5 => pow10(rng.range(3, 30) as u32),
+                    2 | 3 => &rin / BigUint::from(1000u32) + &one,
+                    4 => rin.clone(),
+                    5 => &rin * BigUint::from(rng.range(2, 50)),
+                    6 => pow10(rng.range(3, 30) as u32),
                     _ => rng.big_range(&one, &(&rin + &one)),
                 };
+                if careful && f_amount_out(q.total, &amount, &rin, &rout).is_zero() {
+                    // the smallest payment that buys something, or a bit more
+                    let need1 = f_amount_in(q.total, &one, &rin, &rout).unwrap_or_else(|| rin.clone());
+                    amount = &need1 * BigUint::from(rng.range(1, 50));
+                }
                 cur = amount.clone();
+            }
+            if !fixed_in && hi > 0 && careful {
+                // a fixed-output hop needs the forwarded amount to cover the charge
+                let w1 = f_amount_out(q.total, &(&cur / 2u32), &rin, &rout);
+                if w1.is_zero() {
+                    fixed_in = true;
+                }
+            }
+            if fixed_in && hi > 0 && careful && f_amount_out(q.total, &cur, &rin, &rout).is_zero() {
+                break;
             }
             let (o, charged, wanted) = if fixed_in {
                 let o = f_amount_out(q.total, &cur, &rin, &rout);
-                let min = match rng.below(12) {
-                    0..=6 => one.clone(),
-                    7 | 8 => o.clone().max(one.clone()), // tight
-                    9 => &o + &one,                        // just too tight: must fail
-                    10 => BigUint::zero(),                 // invalid
+                let min = match rng.below(40) {
+                    0..=22 => one.clone(),
+                    23..=30 => o.clone().max(one.clone()), // tight
+                    31 | 32 => &o + &one,                    // just too tight: must fail
+                    33 => BigUint::zero(),                   // invalid
                     _ => (&o / 2u32).max(one.clone()),
                 };
                 (o, cur.clone(), min)
@@ -1532,15 +1548,15 @@ impl RouterWorld {
                 let frac = *rng.pick(&[10u64, 50, 90, 99, 100]);
                 let base = f_amount_out(q.total, &(&cur * BigUint::from(frac) / BigUint::from(100u32)), &rin, &rout);
                 let mut want = base.max(one.clone());
-                if rng.chance(1, 15) {
+                if rng.chance(1, 30) {
                     want = rout.clone(); // not enough reserve
                 }
                 let need = f_amount_in(q.total, &want, &rin, &rout).unwrap_or_else(|| &cur + &one);
                 if hi == 0 {
                     // the first payment can be chosen: exact (zero residual), loose, or one short
-                    amount = match rng.below(6) {
-                        0 | 1 => need.clone(),
-                        2 => if need > one { &need - &one } else { one.clone() },
+                    amount = match rng.below(12) {
+                        0..=3 => need.clone(),
+                        4 => if need > one { &need - &one } else { one.clone() },
                         _ => &need + rng.big_range(&one, &(&need + &one)),
                     };
                 }
@@ -1557,8 +1573,8 @@ impl RouterWorld {
                 break;
             }
         }
-        // malformed variants (~15 %)
-        if rng.chance(15, 100) && !hops.is_empty() {
+        // malformed variants (~12 %)
+        if rng.chance(12, 100) && !hops.is_empty() {
             let i = rng.below(hops.len() as u64) as usize;
             let mut parts: Vec<String> = hops[i].split(':').map(|x| x.to_string()).collect();
             match rng.below(7) {
